@@ -120,6 +120,8 @@ package storage
 //@   maypanic
 //@   requires txn != nil && snap != nil && snap.Snapshot != nil
 //@   requires [version] snap.Version == common.SnapshotVersionCommonEncoding -- PayloadHash panics otherwise; snapshots reach the store only after validation
+//@   trustpre PayloadHash[canonical] -- added for C07: PayloadHash sorts snap.Transactions in place unless they already are in canonical order; a snapshot
+//@       -- reaches the store with its Hash set, i.e. after it was hashed (and thereby sorted) or decoded
 //@   modifies *txn
 //@   ensures [free] old(At(*txn, snap.TopologicalOrder)) == 0
 //@   ensures [written] err == nil ==> At(*txn, snap.TopologicalOrder) == SnapshotKeyId(kvval(snap.NodeId), snap.RoundNumber, kvval(PH(snap.Snapshot))) &&
